@@ -204,7 +204,7 @@ def make_check(prop, plans_of, rule, nontrivial, level="model_checking", assumpt
                         out_ = []
                         for x_ in st_:
                             out_.append(x_)
-                            if x_.get("op") == "update" and rng.random() < 0.5:
+                            if x_.get("op") in ("update", "probe"):
                                 out_.append({"op": "distribute"})
                         dr.append({"id": r_["id"] + "-dist", "steps": out_ + [{"op": "distribute"}] + [{"op": "get", "log": l_} for l_ in sorted(c["Logs"])]})
                 if dr:
